@@ -30,11 +30,15 @@ def main() -> int:
     ap.add_argument("prop")
     ap.add_argument("--tier", default=os.environ.get("VERIF_TIER", "quick"), choices=["quick", "thorough"])
     ap.add_argument("--replay")
+    ap.add_argument("--one", type=int, help="execute run index N only and print the digest of its packed result")
     args = ap.parse_args()
     seed = int(os.environ.get("VERIF_SEED", "0"))
     mod = importlib.import_module(f"campaigns.{args.prop.lower()}")
     camp = mod.CAMPAIGN
     print(f"VERIF_SEED={seed} property={args.prop} tier={args.tier} repo_src={core.REPO_SRC}")
+    if args.one is not None:
+        print("DIGEST", engine.one_digest(camp, args.tier, seed, args.one))
+        return 0
     if args.replay:
         return engine.replay(camp, args.replay)
     return engine.main_check(camp, args.tier, seed)
